@@ -377,7 +377,7 @@ PROPS = {
         "pinned_theorems": ["C05_presented", "C05_rejected", "C05_one_retry", "C05_redirect_rejected",
                             "C05_recorded_once", "C05_recorded_value", "C05_text_hash_refuted",
                             "C05_registry_presents_manifest_checksum", "C05_registry_locker_told_only_new",
-                            "C05_registry_rejected_never_admitted"],
+                            "C05_registry_rejected_never_admitted", "C05_registry_call_judge_correct", "C05_registry_model_calls_judged_true"],
         "rule": ("C01 worlds, mostly remote, where 12% of remote sources carry a UTF-8 BOM or are served as UTF-16 "
                  "with a charset header and 15% of remote specifiers serve different bytes under CacheSetting::Reload; "
                  "lockfile absent (15%) or holding entries for ~45% of the remote specifiers (incl. redirecting, missing "
